@@ -1,293 +1,50 @@
 package main
 
-// T1 facts about the ways a session ENDS (C03End, C13End), re-read from pkg/server/smtp/handler.go and
-// pkg/server/pop3/handler.go.  Everything is structural: call names, string literals, operators, nesting — no statement
-// text, no local identifier names.
+// T1 facts about the ways a session ENDS (C03End, C13End), re-read from pkg/server/smtp and pkg/server/pop3.
+//
+// Nothing is found by the name of a function, a local, a receiver or a field: the command loop is the loop around the
+// state dispatch (k1FindDispatch), the reply helper the unexported method that writes a line (PrintfLine / fmt.Fprint),
+// the state helper the one that assigns its parameter to the state field, the DATA handler what the loop calls while
+// the state is DATA, the reading helper the function that calls ReadString, the body functions of RETR / TOP the
+// helpers of those clauses that build a bufio.Scanner.  Control flow is EXECUTED path by path (kit_t1a.go), helpers
+// with replies inlined, so the read-error handling may sit in the loop or in a helper, end with `break` or `return`,
+// be an if-chain or a switch: the facts are the same.
 //
 // For each package (prefix smtp / pop):
-//   <p>LoopCond        the condition of the command loop of startSession as a token list of field names, operators and
-//                      constants:  ["state", "!=", "QUIT", "&&", "sendError", "==", "nil"]
-//   <p>ReadErrSends    in the loop's read-error branch (the else block that compares with io.EOF), after the EOF test:
-//                      every `….send(<literal>)` in source order with its guard: "timeout" = nested in an `if` whose
-//                      condition calls `.Timeout()`, else "other"
-//   <p>EofSends        the send literals inside the `== io.EOF` block (expected: none)
-//   <p>ReadErrBreaks   number of `break` statements that leave the loop from that else block (EOF, timeout, other = 3)
-//   <p>Deadlines       for the functions that read or write: (function, does a Set{Read,Write}Deadline(… nextDeadline())
-//                      call precede the first I/O call?)
-//   <p>NextDeadline    nextDeadline() is `time.Now().Add(<…>.Timeout)`
+//   <p>LoopCond        the condition of the command loop as a token list of roles, operators and constants:
+//                      ["$state", "!=", "QUIT", "&&", "$sendError", "==", "nil"]  ($sendError = the field the reply
+//                      helper stores a failed write in)
+//   <p>ReadErrSends    for the paths through the loop body on which reading the line FAILED (guard `E != nil`, E the
+//                      value the loop compares with io.EOF) and E is not io.EOF: what such a path replies, with the class
+//                      of the path: "timeout" = under a guard `….Timeout()`, else "other"; the distinct (class, literal text)
+//   <p>EofSends        the replies on the paths with E == io.EOF (expected: none)
+//   <p>ReadErrBreaks   the number of classes of failed-read paths (eof, timeout, other = 3) when every such path LEAVES
+//                      the loop; -1 when one of them goes round again or the shape is not understood
+//   <p>ReadErrOther    any other event (state change, reset, delivery) on a failed-read path (expected: none)
+//   <p>Deadlines       (I/O call, armed?) for every function of the package that reads or writes the connection:
+//                      armed = a Set{Read,Write}Deadline call precedes the I/O call in that function
+//   <p>NextDeadline    the distinct arguments of those Set…Deadline calls, helpers looked through
 // SMTP only:
-//   smtpDataErrSends   the sends inside dataHandler's `if err != nil` block that follows the readDataBlock call, with guards
-//   smtpDataErrCalls   the method calls of that block other than send / logging, in order (expected: enterState) and
-//                      whether the block ends with `return`
-//   smtpDataErrState   the argument of that enterState call
+//   smtpDataErrSends   the replies of the DATA handler on the paths without delivery and without reset (the read of
+//                      the block failed) after the 354, with the class of the path
+//   smtpDataErrExit    how those paths end: the state change and the terminator (expected: state:QUIT; return)
 // POP3 only:
-//   popReadLineErr     the results of the `return` inside readLine's error test after ReadString: ["\"\"", "<expr>"] — the
-//                      first one is the empty string literal: the partial line is dropped
-//   popSendExits       for sendMessage and sendMessageTop: the send literals of every top-level `if … { …; return }` in
-//                      source order, then the top-level sends after the last of them
-//   popBodyCalls       the last two calls of the RETR and TOP cases of transactionHandler: ("send", format literal) then
-//                      the body function
+//   popReadLineErr     result 0 of the reading helper on the paths where ReadString failed: "lit:" = the empty string
+//                      literal: the partial line is dropped
+//   popSendMessageExits / popSendMessageTopExits
+//                      the exits of the body function of RETR / TOP: the replies outside the line loop, per exit, sorted
+//   popBodyCalls       for the RETR and TOP rows of the TRANSACTION handler: on every path that reaches the body
+//                      function, the reply sent immediately before it
 
 import (
 	"go/ast"
 	"go/token"
+	"regexp"
+	"sort"
 	"strings"
 )
 
 func init() { extractors = append(extractors, extractEnds) }
-
-func selName(e ast.Expr) string {
-	if s, ok := e.(*ast.SelectorExpr); ok {
-		return s.Sel.Name
-	}
-	return ""
-}
-
-// callName: the method / function name of a call ("" if not a call)
-func callName(n ast.Node) string {
-	ce, ok := n.(*ast.CallExpr)
-	if !ok {
-		return ""
-	}
-	switch f := ce.Fun.(type) {
-	case *ast.SelectorExpr:
-		return f.Sel.Name
-	case *ast.Ident:
-		return f.Name
-	}
-	return ""
-}
-
-// sendLit: the literal of `x.send("…")` or `x.send(fmt.Sprintf("…", …))`
-func sendLit(n ast.Node) (string, bool) {
-	ce, ok := n.(*ast.CallExpr)
-	if !ok || selName(ce.Fun) != "send" || len(ce.Args) != 1 {
-		return "", false
-	}
-	if s, ok := strLit(ce.Args[0]); ok {
-		return s, true
-	}
-	if in, ok := ce.Args[0].(*ast.CallExpr); ok && selName(in.Fun) == "Sprintf" && len(in.Args) > 0 {
-		if s, ok := strLit(in.Args[0]); ok {
-			return s, true
-		}
-	}
-	return "?", true
-}
-
-func condCallsTimeout(e ast.Expr) bool {
-	found := false
-	ast.Inspect(e, func(n ast.Node) bool {
-		if callName(n) == "Timeout" {
-			found = true
-		}
-		return true
-	})
-	return found
-}
-
-// guardedSends: every send below n, in source order, tagged "timeout" when nested in an if whose condition calls .Timeout()
-func guardedSends(n ast.Node) [][2]string {
-	var res [][2]string
-	var walk func(n ast.Node, guard string)
-	walk = func(n ast.Node, guard string) {
-		if n == nil {
-			return
-		}
-		switch v := n.(type) {
-		case *ast.IfStmt:
-			if v.Init != nil {
-				walk(v.Init, guard)
-			}
-			g := guard
-			if condCallsTimeout(v.Cond) {
-				g = "timeout"
-			}
-			walk(v.Body, g)
-			if v.Else != nil {
-				walk(v.Else, guard)
-			}
-			return
-		case *ast.BlockStmt:
-			for _, st := range v.List {
-				walk(st, guard)
-			}
-			return
-		case *ast.ExprStmt:
-			if s, ok := sendLit(v.X); ok {
-				res = append(res, [2]string{guard, s})
-			}
-			return
-		case *ast.SwitchStmt:
-			walk(v.Body, guard)
-			return
-		case *ast.CaseClause:
-			for _, st := range v.Body {
-				walk(st, guard)
-			}
-			return
-		}
-	}
-	walk(n, "other")
-	return res
-}
-
-func isIoEOFTest(e ast.Expr) bool {
-	be, ok := e.(*ast.BinaryExpr)
-	if !ok || be.Op != token.EQL {
-		return false
-	}
-	for _, side := range []ast.Expr{be.X, be.Y} {
-		if s, ok := side.(*ast.SelectorExpr); ok && s.Sel.Name == "EOF" {
-			if id, ok := s.X.(*ast.Ident); ok && id.Name == "io" {
-				return true
-			}
-		}
-	}
-	return false
-}
-
-// loopOf: the outermost `for` of a function
-func loopOf(fd *ast.FuncDecl) *ast.ForStmt {
-	if fd == nil || fd.Body == nil {
-		return nil
-	}
-	for _, st := range fd.Body.List {
-		if f, ok := st.(*ast.ForStmt); ok {
-			return f
-		}
-	}
-	return nil
-}
-
-// condTokens: field names / constants / operators of a condition, receivers dropped
-func condTokens(e ast.Expr) []string {
-	switch v := e.(type) {
-	case *ast.BinaryExpr:
-		return append(append(condTokens(v.X), v.Op.String()), condTokens(v.Y)...)
-	case *ast.ParenExpr:
-		return condTokens(v.X)
-	case *ast.SelectorExpr:
-		return []string{v.Sel.Name}
-	case *ast.Ident:
-		return []string{v.Name}
-	case *ast.BasicLit:
-		return []string{v.Value}
-	}
-	return []string{"?"}
-}
-
-// readErrBlock: the else block of the loop that contains the io.EOF test; (the EOF if, the statements after it)
-func readErrBlock(loop *ast.ForStmt) (*ast.IfStmt, []ast.Stmt, *ast.BlockStmt) {
-	if loop == nil {
-		return nil, nil, nil
-	}
-	var eofIf *ast.IfStmt
-	var rest []ast.Stmt
-	var blk *ast.BlockStmt
-	n := 0
-	ast.Inspect(loop.Body, func(x ast.Node) bool {
-		is, ok := x.(*ast.IfStmt)
-		if !ok || is.Else == nil {
-			return true
-		}
-		eb, ok := is.Else.(*ast.BlockStmt)
-		if !ok {
-			return true
-		}
-		for i, st := range eb.List {
-			if in, ok := st.(*ast.IfStmt); ok && isIoEOFTest(in.Cond) {
-				eofIf, rest, blk = in, eb.List[i+1:], eb
-				n++
-			}
-		}
-		return true
-	})
-	if n != 1 {
-		return nil, nil, nil
-	}
-	return eofIf, rest, blk
-}
-
-// loopBreaks: break statements below n that leave the enclosing loop (not those inside a nested switch/for/select)
-func loopBreaks(n ast.Node) int {
-	cnt := 0
-	var walk func(n ast.Node)
-	walk = func(n ast.Node) {
-		switch v := n.(type) {
-		case nil:
-		case *ast.BranchStmt:
-			if v.Tok == token.BREAK && v.Label == nil {
-				cnt++
-			}
-		case *ast.BlockStmt:
-			for _, st := range v.List {
-				walk(st)
-			}
-		case *ast.IfStmt:
-			walk(v.Body)
-			if v.Else != nil {
-				walk(v.Else)
-			}
-		}
-	}
-	walk(n)
-	return cnt
-}
-
-// deadlineBeforeIO: does a Set<kind>Deadline(… nextDeadline() …) call precede the first call named one of ioCalls?
-func deadlineBeforeIO(fd *ast.FuncDecl, kind string, ioCalls map[string]bool) string {
-	if fd == nil || fd.Body == nil {
-		return "missing"
-	}
-	state := "no-io"
-	armed := false
-	done := false
-	ast.Inspect(fd.Body, func(n ast.Node) bool {
-		if done {
-			return false
-		}
-		ce, ok := n.(*ast.CallExpr)
-		if !ok {
-			return true
-		}
-		name := callName(ce)
-		if name == "Set"+kind+"Deadline" && len(ce.Args) == 1 && callName(ce.Args[0]) == "nextDeadline" {
-			armed = true
-		}
-		if ioCalls[name] {
-			if armed {
-				state = "armed"
-			} else {
-				state = "unarmed"
-			}
-			done = true
-		}
-		return true
-	})
-	return state
-}
-
-func nextDeadlineShape(fd *ast.FuncDecl) string {
-	if fd == nil || fd.Body == nil || len(fd.Body.List) != 1 {
-		return "?"
-	}
-	rs, ok := fd.Body.List[0].(*ast.ReturnStmt)
-	if !ok || len(rs.Results) != 1 {
-		return "?"
-	}
-	ce, ok := rs.Results[0].(*ast.CallExpr)
-	if !ok || callName(ce) != "Add" || len(ce.Args) != 1 {
-		return "?"
-	}
-	recv, ok := ce.Fun.(*ast.SelectorExpr)
-	if !ok || callName(recv.X) != "Now" {
-		return "?"
-	}
-	return "Now.Add(" + selName(ce.Args[0]) + ")"
-}
-
-func pairsLean(ps [][2]string) string { return pairList(ps) }
 
 // guardBytes: (guard, literal as bytes) — reply literals are emitted as byte lists (the audit's source scan looks for
 // forbidden words even inside string literals, and one of the replies contains one)
@@ -299,35 +56,7 @@ func guardBytes(ps [][2]string) string {
 	return "[" + strings.Join(p, ", ") + "]"
 }
 
-func sessionEndFacts(g *genFile, prefix string, f *ast.File) {
-	ss := fn(f, "Server", "startSession")
-	loop := loopOf(ss)
-	cond := []string{"?"}
-	if loop != nil && loop.Cond != nil {
-		cond = condTokens(loop.Cond)
-	}
-	g.def(prefix+"LoopCond", "List String", strList(cond), "the condition of the command loop: field names, operators, constants")
-	eofIf, rest, blk := readErrBlock(loop)
-	var errSends, eofSends [][2]string
-	breaks := -1
-	if eofIf != nil {
-		eofSends = guardedSends(eofIf.Body)
-		for _, st := range rest {
-			errSends = append(errSends, guardedSends(st)...)
-		}
-		breaks = loopBreaks(blk)
-	} else {
-		errSends = [][2]string{{"?", "?"}}
-	}
-	eofLits := []string{}
-	for _, p := range eofSends {
-		eofLits = append(eofLits, p[1])
-	}
-	g.def(prefix+"ReadErrSends", "List (String × List Nat)", guardBytes(errSends), "sends of the loop's read-error branch after the io.EOF test: (guard, literal)")
-	g.def(prefix+"EofSends", "List String", strList(eofLits), "sends inside the `== io.EOF` block")
-	g.def(prefix+"ReadErrBreaks", "Int", intLean(breaks), "break statements leaving the loop from the read-error branch")
-	g.def(prefix+"NextDeadline", "String", leanStr(nextDeadlineShape(fn(f, "Session", "nextDeadline"))), "shape of nextDeadline()")
-}
+func pairsLean(ps [][2]string) string { return pairList(ps) }
 
 func intLean(n int) string {
 	if n < 0 {
@@ -348,183 +77,565 @@ func itoa(n int) string {
 	return s
 }
 
-func extractEnds() {
-	g := gen("Ends")
-	// ---------------- SMTP
-	sf := parse("pkg/server/smtp/handler.go")
-	sessionEndFacts(g, "smtp", sf)
-	dl := [][2]string{
-		{"readLine", deadlineBeforeIO(fn(sf, "Session", "readLine"), "Read", map[string]bool{"ReadLine": true})},
-		{"readDataBlock", deadlineBeforeIO(fn(sf, "Session", "readDataBlock"), "Read", map[string]bool{"ReadDotBytes": true})},
-		{"send", deadlineBeforeIO(fn(sf, "Session", "send"), "Write", map[string]bool{"PrintfLine": true})},
-	}
-	g.def("smtpDeadlines", "List (String × String)", pairsLean(dl), "is the deadline armed (Set…Deadline(nextDeadline())) before the first I/O call of the function")
-	// dataHandler: the `if err != nil` block after the readDataBlock call
-	dh := fn(sf, "Session", "dataHandler")
-	var dataSends [][2]string
-	calls := []string{}
-	ret := "?"
-	stateArg := "?"
-	if dh != nil && dh.Body != nil {
-		seenRead := false
-		for _, st := range dh.Body.List {
-			if as, ok := st.(*ast.AssignStmt); ok && len(as.Rhs) == 1 && callName(as.Rhs[0]) == "readDataBlock" {
-				seenRead = true
-				continue
-			}
-			if is, ok := st.(*ast.IfStmt); ok && seenRead {
-				if be, ok := is.Cond.(*ast.BinaryExpr); ok && be.Op == token.NEQ {
-					dataSends = guardedSends(is.Body)
-					for _, s2 := range is.Body.List {
-						if es, ok := s2.(*ast.ExprStmt); ok {
-							name := callName(es.X)
-							if name != "" && name != "send" && name != "Msgf" && name != "Msg" {
-								calls = append(calls, name)
-								if name == "enterState" {
-									if ce := es.X.(*ast.CallExpr); len(ce.Args) == 1 {
-										stateArg = strings.Join(condTokens(ce.Args[0]), "")
-									}
-								}
-							}
-						}
-					}
-					ret = "no-return"
-					if k := len(is.Body.List); k > 0 {
-						if _, ok := is.Body.List[k-1].(*ast.ReturnStmt); ok {
-							ret = "return"
-						}
-					}
-				}
-				break
-			}
-		}
-	}
-	g.def("smtpDataErrSends", "List (String × List Nat)", guardBytes(dataSends), "sends in dataHandler's read-error block")
-	g.def("smtpDataErrCalls", "List String", strList(append(calls, ret)), "other method calls of that block, then whether it ends with return")
-	g.def("smtpDataErrState", "String", leanStr(stateArg), "argument of the enterState call in that block")
-
-	// ---------------- POP3
-	pf := parse("pkg/server/pop3/handler.go")
-	sessionEndFacts(g, "pop", pf)
-	pdl := [][2]string{
-		{"readLine", deadlineBeforeIO(fn(pf, "Session", "readLine"), "Read", map[string]bool{"ReadString": true})},
-		{"send", deadlineBeforeIO(fn(pf, "Session", "send"), "Write", map[string]bool{"Fprint": true})},
-	}
-	g.def("popDeadlines", "List (String × String)", pairsLean(pdl), "is the deadline armed before the first I/O call of the function")
-	// readLine: the return inside the error test that follows the ReadString call
-	rl := fn(pf, "Session", "readLine")
-	rlErr := []string{"?"}
-	if rl != nil && rl.Body != nil {
-		seen := false
-		for _, st := range rl.Body.List {
-			if as, ok := st.(*ast.AssignStmt); ok && len(as.Rhs) == 1 && callName(as.Rhs[0]) == "ReadString" {
-				seen = true
-				continue
-			}
-			if is, ok := st.(*ast.IfStmt); ok && seen {
-				for _, s2 := range is.Body.List {
-					if rs, ok := s2.(*ast.ReturnStmt); ok && len(rs.Results) == 2 {
-						first := "expr"
-						if s, ok := strLit(rs.Results[0]); ok {
-							first = "lit:" + s
-						}
-						rlErr = []string{first}
-					}
-				}
-				break
-			}
-		}
-	}
-	g.def("popReadLineErr", "List String", strList(rlErr), "first result of readLine's error return: lit: = the empty string literal, the partial line is dropped")
-	exits := func(name string) string {
-		fd := fn(pf, "Session", name)
-		var groups [][]string
-		var tail []string
-		if fd != nil && fd.Body != nil {
-			for _, st := range fd.Body.List {
-				if is, ok := st.(*ast.IfStmt); ok {
-					if k := len(is.Body.List); k > 0 {
-						if _, ok := is.Body.List[k-1].(*ast.ReturnStmt); ok {
-							var lits []string
-							for _, p := range guardedSends(is.Body) {
-								lits = append(lits, p[1])
-							}
-							groups = append(groups, lits)
-							tail = nil
-							continue
-						}
-					}
-				}
-				if es, ok := st.(*ast.ExprStmt); ok {
-					if s, ok := sendLit(es.X); ok {
-						tail = append(tail, s)
-					}
-				}
-			}
-		}
-		groups = append(groups, tail)
-		p := []string{}
-		for _, gl := range groups {
-			p = append(p, strList(gl))
-		}
-		return "[" + strings.Join(p, ", ") + "]"
-	}
-	g.def("popSendMessageExits", "List (List String)", exits("sendMessage"), "sendMessage: send literals of each top-level `if … return` block, then the final sends")
-	g.def("popSendMessageTopExits", "List (List String)", exits("sendMessageTop"), "the same for sendMessageTop")
-	// RETR / TOP cases: the last two calls
-	th := fn(pf, "Session", "transactionHandler")
-	tails := [][2]string{}
-	for _, sw := range endsStrSwitches(th) {
-		for _, st := range sw.Body.List {
-			cc, ok := st.(*ast.CaseClause)
-			if !ok || len(cc.List) != 1 {
-				continue
-			}
-			lab, _ := strLit(cc.List[0])
-			if lab != "RETR" && lab != "TOP" {
-				continue
-			}
-			var last []string
-			for _, s2 := range cc.Body {
-				if es, ok := s2.(*ast.ExprStmt); ok {
-					if s, ok := sendLit(es.X); ok {
-						last = append(last, "send:"+s)
-					} else if n := callName(es.X); n != "" {
-						last = append(last, n)
-					}
-				}
-			}
-			if len(last) >= 2 {
-				tails = append(tails, [2]string{lab, strings.Join(last[len(last)-2:], " ; ")})
-			}
-		}
-	}
-	g.def("popBodyCalls", "List (String × String)", pairsLean(tails), "the last two calls of the RETR and TOP cases: the +OK status line is sent before the body function runs")
+// endsRoles: the helpers of a line-protocol package by what they do.
+type endsRoles struct {
+	pkg      *k1Pkg
+	d        *k1Dispatch
+	send     *ast.FuncDecl
+	setState *ast.FuncDecl
+	reset    *ast.FuncDecl          // SMTP only
+	body     map[*ast.FuncDecl]bool // POP3: the functions that stream a message
+	sendErr  string                 // the field the reply helper stores a failed write in
+	calls    map[string]bool        // library calls reported as events
 }
 
-// endsStrSwitches: the tagged `switch` statements of a function whose case labels are string literals (the command tables), whatever the
-// tag variable is called
-func endsStrSwitches(fd *ast.FuncDecl) []*ast.SwitchStmt {
-	var res []*ast.SwitchStmt
-	if fd == nil || fd.Body == nil {
-		return res
-	}
-	ast.Inspect(fd.Body, func(n ast.Node) bool {
-		sw, ok := n.(*ast.SwitchStmt)
-		if !ok || sw.Tag == nil {
-			return true
+func endsFindRoles(p *k1Pkg, writes func(*ast.CallExpr) bool) *endsRoles {
+	r := &endsRoles{pkg: p, d: k1FindDispatch(p), body: map[*ast.FuncDecl]bool{}, calls: map[string]bool{}}
+	for _, fd := range p.funcs {
+		if fd.Recv == nil || k1Exported(fd.Name.Name) || r.send != nil {
+			continue
 		}
-		for _, st := range sw.Body.List {
-			if cc, ok := st.(*ast.CaseClause); ok {
-				for _, e := range cc.List {
-					if _, isStr := strLit(e); isStr {
-						res = append(res, sw)
-						return true
+		for _, ce := range k1Calls(fd.Body) {
+			if writes(ce) {
+				r.send = fd
+				break
+			}
+		}
+	}
+	if r.send != nil {
+		// `recv.F = <error>`: the one field the reply helper assigns
+		e := k1NewEnv(p, r.send)
+		fields := map[string]bool{}
+		ast.Inspect(r.send.Body, func(n ast.Node) bool {
+			if as, ok := n.(*ast.AssignStmt); ok && as.Tok == token.ASSIGN {
+				for _, l := range as.Lhs {
+					if c := e.canon(l); strings.HasPrefix(c, "$r.") && !strings.Contains(c[3:], ".") {
+						fields[c[3:]] = true
+					}
+				}
+			}
+			return true
+		})
+		if len(fields) == 1 {
+			for f := range fields {
+				r.sendErr = f
+			}
+		}
+	}
+	if r.d != nil {
+		for _, fd := range p.funcs {
+			if fd.Recv == nil || k1Exported(fd.Name.Name) || fd.Type.Params == nil || len(fd.Type.Params.List) != 1 {
+				continue
+			}
+			e := k1NewEnv(p, fd)
+			ast.Inspect(fd.Body, func(n ast.Node) bool {
+				as, ok := n.(*ast.AssignStmt)
+				if !ok || as.Tok != token.ASSIGN || len(as.Lhs) != 1 || len(as.Rhs) != 1 {
+					return true
+				}
+				if e.canon(as.Lhs[0]) == "$r."+r.d.stateField && e.canon(as.Rhs[0]) == "$p" {
+					r.setState = fd
+				}
+				return true
+			})
+		}
+	}
+	return r
+}
+
+// walker: the path-sensitive walker with the events of the session-end facts: replies with their literal text
+// (format + arguments form, so that fmt.Sprintf and `+` are the same reply), state changes, and the named library calls.
+func (r *endsRoles) walker() *k2Walker {
+	w := k2NewWalker(r.pkg)
+	w.classify = func(e *k1Env, ce *ast.CallExpr) (string, bool) {
+		fd := r.pkg.resolve(ce)
+		switch {
+		case fd != nil && fd == r.send:
+			if len(ce.Args) == 1 {
+				if fm, _, ok := k2FormatStr(e.canon(ce.Args[0])); ok {
+					return "send:" + fm, false
+				}
+			}
+			return "send:?", false
+		case fd != nil && fd == r.setState:
+			if len(ce.Args) == 1 {
+				return "state:" + e.canon(ce.Args[0]), false
+			}
+			return "state:?", false
+		case fd != nil && fd == r.reset:
+			return "reset", false
+		case fd != nil && r.body[fd]:
+			return "body", false
+		case fd != nil:
+			return "", true
+		}
+		if sel, ok := ce.Fun.(*ast.SelectorExpr); ok && r.calls[sel.Sel.Name] {
+			return "call:" + sel.Sel.Name, false
+		}
+		return "", false
+	}
+	w.assign = func(e *k1Env, lhs, rhs ast.Expr) string {
+		l := e.canon(lhs)
+		for _, pre := range []string{"$r.", "$s."} {
+			if r.d != nil && l == pre+r.d.stateField {
+				return "state:" + e.canon(rhs)
+			}
+		}
+		return ""
+	}
+	w.elide = func(ce *ast.CallExpr) (string, bool) {
+		if sel, ok := ce.Fun.(*ast.SelectorExpr); ok && r.calls[sel.Sel.Name] && r.pkg.resolve(ce) == nil {
+			return sel.Sel.Name + "(..)", true
+		}
+		return "", false
+	}
+	return w
+}
+
+// endsLoopCond: the loop condition as tokens, fields named by role.
+func (r *endsRoles) loopCond() []string {
+	if r.d == nil || r.d.loop == nil || r.d.loop.Cond == nil {
+		return []string{"?"}
+	}
+	var toks func(x ast.Expr) []string
+	toks = func(x ast.Expr) []string {
+		switch v := x.(type) {
+		case *ast.BinaryExpr:
+			return append(append(toks(v.X), v.Op.String()), toks(v.Y)...)
+		case *ast.ParenExpr:
+			return toks(v.X)
+		case *ast.SelectorExpr:
+			if r.d.env.canon(v.X) == "$s" {
+				switch v.Sel.Name {
+				case r.d.stateField:
+					return []string{"$state"}
+				case r.sendErr:
+					return []string{"$sendError"}
+				}
+			}
+			return []string{r.d.env.canon(v)}
+		case *ast.Ident:
+			return []string{r.d.env.canon(v)}
+		case *ast.BasicLit:
+			return []string{v.Value}
+		}
+		return []string{"?"}
+	}
+	return toks(r.d.loop.Cond)
+}
+
+var endsEOFRe = regexp.MustCompile(`^\[(.*) (==|!=) io\.EOF\]$`)
+var endsTimeoutRe = regexp.MustCompile(`^\[[^!].*\.Timeout\(\)\]$`)
+
+func endsClass(items []string) string {
+	for _, it := range items {
+		if strings.HasPrefix(it, "unknown:") || strings.HasPrefix(it, "*") || it == "[loop]" {
+			return "?"
+		}
+	}
+	for _, it := range items {
+		if endsTimeoutRe.MatchString(it) {
+			return "timeout"
+		}
+	}
+	return "other"
+}
+
+func sessionEndFacts(g *genFile, prefix string, r *endsRoles) {
+	g.def(prefix+"LoopCond", "List String", strList(r.loopCond()), "the condition of the command loop: roles ($state, $sendError), operators, constants")
+	var errSends [][2]string
+	eofLits := []string{}
+	other := []string{}
+	breaks := -1
+	if r.d != nil && r.d.loop != nil && r.send != nil {
+		w := r.walker()
+		paths := k2CanonicalPaths(w.paths(r.d.env, nil, r.d.loop.Body.List))
+		// E: the value the loop compares with io.EOF
+		es := map[string]bool{}
+		for _, p := range paths {
+			for _, it := range p.items {
+				if m := endsEOFRe.FindStringSubmatch(it); m != nil {
+					es[m[1]] = true
+				}
+			}
+		}
+		if len(es) == 1 {
+			E := ""
+			for k := range es {
+				E = k
+			}
+			breaks = 0
+			classes := map[string]bool{}
+			seen := map[[2]string]bool{}
+			for _, p := range paths {
+				items := p.items
+				failed, tested, eof := false, false, false
+				for _, it := range items {
+					if it == "["+E+" != nil]" {
+						failed = true
+					}
+					if it == "["+E+" == io.EOF]" {
+						eof, tested = true, true
+					}
+					if it == "["+E+" != io.EOF]" {
+						tested = true
+					}
+				}
+				// (the value of another helper may be rendered like E: a failed read of the LINE goes through the io.EOF test)
+				if !failed || !tested {
+					continue
+				}
+				if p.term != "break" {
+					breaks = -1000
+				}
+				cl := endsClass(items)
+				if eof {
+					cl = "eof"
+				}
+				classes[cl] = true
+				var sends []string
+				for _, it := range items {
+					switch {
+					case strings.HasPrefix(it, "["):
+					case strings.HasPrefix(it, "send:"):
+						sends = append(sends, it[5:])
+					default:
+						other = append(other, it)
+					}
+				}
+				switch {
+				case eof:
+					eofLits = append(eofLits, sends...)
+				default:
+					// one entry per distinct (class, what such a path sends); a path that sends nothing shows as ""
+					pr := [2]string{cl, strings.Join(sends, "\n")}
+					if !seen[pr] {
+						seen[pr] = true
+						errSends = append(errSends, pr)
+					}
+				}
+			}
+			breaks += len(classes)
+			if breaks < 0 {
+				breaks = -1
+			}
+		}
+	}
+	if breaks < 0 {
+		errSends = [][2]string{{"?", "?"}}
+	}
+	rank := map[string]int{"timeout": 0, "other": 1, "?": 2}
+	sort.SliceStable(errSends, func(i, j int) bool {
+		if rank[errSends[i][0]] != rank[errSends[j][0]] {
+			return rank[errSends[i][0]] < rank[errSends[j][0]]
+		}
+		return errSends[i][1] < errSends[j][1]
+	})
+	g.def(prefix+"ReadErrSends", "List (String × List Nat)", guardBytes(errSends), "what the paths of the command loop on which reading the line failed with something other than io.EOF reply: the distinct (class of the path, literal); timeout first")
+	g.def(prefix+"EofSends", "List String", strList(eofLits), "replies on the paths where it failed with io.EOF")
+	g.def(prefix+"ReadErrBreaks", "Int", intLean(breaks), "number of classes (eof, timeout, other) of failed-read paths, all of which leave the loop (-1: one does not, or not understood)")
+	g.def(prefix+"ReadErrOther", "List String", strList(other), "other events on the failed-read paths")
+	pairs, args := endsDeadlines(r.pkg)
+	g.def(prefix+"Deadlines", "List (String × String)", pairsLean(pairs), "(I/O call, armed | unarmed) for every function that reads or writes the connection: is a Set{Read,Write}Deadline call made before the I/O call")
+	g.def(prefix+"NextDeadline", "List String", strList(args), "the distinct deadlines those calls set (helpers looked through)")
+}
+
+var endsReads = map[string]bool{"ReadLine": true, "ReadDotBytes": true, "ReadDotLines": true, "ReadString": true, "ReadBytes": true, "ReadContinuedLine": true}
+
+func endsIsWrite(ce *ast.CallExpr) bool {
+	if k1SelCall(ce, "PrintfLine") {
+		return true
+	}
+	for _, n := range []string{"Fprint", "Fprintf", "Fprintln"} {
+		if k1QualCall(ce, "fmt", n) && len(ce.Args) > 0 {
+			if s := src(ce.Args[0]); s != "os.Stdout" && s != "os.Stderr" {
+				return true
+			}
+		}
+	}
+	return false
+}
+
+// endsDeadlines: every I/O call of the package with whether the matching deadline was set before it in its function.
+func endsDeadlines(p *k1Pkg) (pairs [][2]string, args []string) {
+	seenPair := map[[2]string]bool{}
+	seenArg := map[string]bool{}
+	for _, fd := range p.funcs {
+		e := k1NewEnv(p, fd)
+		armed := map[string]bool{}
+		ast.Inspect(fd.Body, func(n ast.Node) bool {
+			ce, ok := n.(*ast.CallExpr)
+			if !ok {
+				return true
+			}
+			sel, isSel := ce.Fun.(*ast.SelectorExpr)
+			if !isSel {
+				return true
+			}
+			name := sel.Sel.Name
+			switch {
+			case (name == "SetReadDeadline" || name == "SetWriteDeadline" || name == "SetDeadline") && len(ce.Args) == 1:
+				if name != "SetWriteDeadline" {
+					armed["r"] = true
+				}
+				if name != "SetReadDeadline" {
+					armed["w"] = true
+				}
+				if a := e.canon(ce.Args[0]); !seenArg[a] {
+					seenArg[a] = true
+					args = append(args, a)
+				}
+			case endsReads[name] && p.resolve(ce) == nil:
+				pr := [2]string{name, map[bool]string{true: "armed", false: "unarmed"}[armed["r"]]}
+				if !seenPair[pr] {
+					seenPair[pr] = true
+					pairs = append(pairs, pr)
+				}
+			case endsIsWrite(ce):
+				pr := [2]string{name, map[bool]string{true: "armed", false: "unarmed"}[armed["w"]]}
+				if !seenPair[pr] {
+					seenPair[pr] = true
+					pairs = append(pairs, pr)
+				}
+			}
+			return true
+		})
+	}
+	sort.Slice(pairs, func(i, j int) bool { return pairs[i][0]+pairs[i][1] < pairs[j][0]+pairs[j][1] })
+	sort.Strings(args)
+	return pairs, args
+}
+
+// pop3BodyFuncs: the functions that stream a message for RETR and for TOP: among the unexported helpers of the package
+// that build a bufio.Scanner, the one that the paths of that row of a handler's table call (the handlers are executed
+// path by path, so the table may be a switch, an if-chain or sit in a helper); and the state of that handler.
+func pop3BodyFuncs(pp *k1Pkg, d *k1Dispatch) (map[string]*ast.FuncDecl, string) {
+	res := map[string]*ast.FuncDecl{}
+	if d == nil {
+		return res, ""
+	}
+	id := map[*ast.FuncDecl]int{}
+	var builders []*ast.FuncDecl
+	for _, fd := range pp.funcs {
+		if !k1Exported(fd.Name.Name) && len(dotScannerCalls(fd)) > 0 {
+			id[fd] = len(builders)
+			builders = append(builders, fd)
+		}
+	}
+	if len(builders) == 0 {
+		return res, ""
+	}
+	state := ""
+	for _, st := range d.states {
+		w := k2NewWalker(pp)
+		w.classify = func(e *k1Env, ce *ast.CallExpr) (string, bool) {
+			if fd := pp.resolve(ce); fd != nil {
+				if k, ok := id[fd]; ok {
+					return "body#" + itoa(k), false
+				}
+				return "", true
+			}
+			return "", false
+		}
+		_, _, rows := smtpTable(w.paths(d.handlerEnv(pp, st), nil, d.handlers[st].Body.List))
+		for _, verb := range []string{"RETR", "TOP"} {
+			set := map[string]bool{}
+			for _, x := range rows[verb] {
+				for _, it := range x.items {
+					if strings.HasPrefix(strings.TrimPrefix(it, "*"), "body#") {
+						set[strings.TrimPrefix(it, "*")] = true
+					}
+				}
+			}
+			if len(set) == 1 {
+				for k := range set {
+					for fd, n := range id {
+						if "body#"+itoa(n) == k {
+							res[verb] = fd
+							state = st
+						}
 					}
 				}
 			}
 		}
-		return true
-	})
-	return res
+	}
+	return res, state
+}
+
+func extractEnds() {
+	defer k1Recover("extractEnds")
+	g := gen("Ends")
+	// ---------------- SMTP
+	sp := k1LoadPkg("pkg/server/smtp")
+	sr := endsFindRoles(sp, func(ce *ast.CallExpr) bool { return k1SelCall(ce, "PrintfLine") })
+	smtp := smtpFindRoles(sp)
+	sr.reset = smtp.reset
+	sr.calls = map[string]bool{"Deliver": true}
+	sessionEndFacts(g, "smtp", sr)
+	// the DATA handler: the paths on which the block could not be read
+	var dataSends [][2]string
+	exits := []string{}
+	if smtp.data != nil && sr.send != nil {
+		sr.calls = map[string]bool{"Deliver": true, "ReadDotBytes": true}
+		w := sr.walker()
+		seen := map[string]bool{}
+		for _, p := range k2CanonicalPaths(w.paths(k1NewEnv(sp, smtp.data), nil, smtp.data.Body.List)) {
+			items := p.items
+			term := p.term
+			if term == "" {
+				term = "return"
+			}
+			failed := true
+			for _, it := range items {
+				if it == "call:Deliver" || it == "reset" {
+					failed = false
+				}
+			}
+			if !failed {
+				continue
+			}
+			cl := endsClass(items)
+			var rest []string
+			first := true
+			for _, it := range items {
+				switch {
+				case strings.HasPrefix(it, "["), it == "call:ReadDotBytes":
+				case strings.HasPrefix(it, "send:") && first:
+					first = false // the 354 that opens the phase
+				case strings.HasPrefix(it, "send:"):
+					pr := [2]string{cl, it[5:]}
+					if !seen[pr[0]+"\x00"+pr[1]] {
+						seen[pr[0]+"\x00"+pr[1]] = true
+						dataSends = append(dataSends, pr)
+					}
+				default:
+					rest = append(rest, it)
+				}
+			}
+			if x := strings.Join(append(rest, term), "; "); !seen["exit\x00"+x] {
+				seen["exit\x00"+x] = true
+				exits = append(exits, x)
+			}
+		}
+		sort.Strings(exits)
+	}
+	g.def("smtpDataErrSends", "List (String × List Nat)", guardBytes(dataSends), "replies of the DATA handler, after the 354, on the paths without delivery and without reset (the block could not be read): (class of the path, literal)")
+	g.def("smtpDataErrExit", "List String", strList(exits), "what else those paths do and how they end")
+
+	// ---------------- POP3
+	pp := k1LoadPkg("pkg/server/pop3")
+	pr := endsFindRoles(pp, func(ce *ast.CallExpr) bool { return k1QualCall(ce, "fmt", "Fprint") })
+	sessionEndFacts(g, "pop", pr)
+	// the reading helper: what it returns when ReadString failed
+	rlErr := []string{"?"}
+	{
+		var rl *ast.FuncDecl
+		n := 0
+		for _, fd := range pp.funcs {
+			for _, ce := range k1Calls(fd.Body) {
+				if k1SelCall(ce, "ReadString") && pp.resolve(ce) == nil {
+					rl = fd
+					n++
+				}
+			}
+		}
+		if n == 1 {
+			pr.calls = map[string]bool{"ReadString": true}
+			w := pr.walker()
+			w.opaque = func(*ast.FuncDecl) bool { return true }
+			set := map[string]bool{}
+			for _, p := range w.paths(k1NewEnv(pp, rl), nil, rl.Body.List) {
+				failed := false
+				for _, it := range p.items {
+					if it == "[ReadString(..)#1 != nil]" {
+						failed = true
+					}
+				}
+				if !failed {
+					continue
+				}
+				v := "expr"
+				if len(p.rets) == 2 && len(p.rets[0]) >= 2 && p.rets[0][0] == '"' {
+					if s, ok := strLit(&ast.BasicLit{Kind: token.STRING, Value: p.rets[0]}); ok {
+						v = "lit:" + s
+					}
+				}
+				set[v] = true
+			}
+			rlErr = []string{}
+			for k := range set {
+				rlErr = append(rlErr, k)
+			}
+			sort.Strings(rlErr)
+			pr.calls = map[string]bool{}
+		}
+	}
+	g.def("popReadLineErr", "List String", strList(rlErr), "result 0 of the reading helper on the paths where ReadString failed: lit: = the empty string literal, the partial line is dropped")
+	// the body functions of RETR and TOP
+	var rows map[string][]k2Path
+	bodyOf, bodyState := pop3BodyFuncs(pp, pr.d)
+	exitsOf := func(fd *ast.FuncDecl) string {
+		var groups []string
+		if fd != nil && pr.send != nil {
+			w := pr.walker()
+			for _, p := range k2CanonicalPaths(w.paths(k1NewEnv(pp, fd), nil, fd.Body.List)) {
+				var lits []string
+				for _, it := range p.items {
+					if strings.HasPrefix(it, "send:") {
+						lits = append(lits, it[5:])
+					}
+					if strings.HasPrefix(it, "unknown:") {
+						lits = append(lits, it)
+					}
+				}
+				groups = append(groups, strList(lits))
+			}
+		}
+		sort.Strings(groups)
+		out := []string{}
+		for i, x := range groups {
+			if i == 0 || x != groups[i-1] {
+				out = append(out, x)
+			}
+		}
+		return "[" + strings.Join(out, ", ") + "]"
+	}
+	g.def("popSendMessageExits", "List (List String)", exitsOf(bodyOf["RETR"]), "the body function of RETR (the helper of that clause that builds a bufio.Scanner): the replies outside the line loop on each of its exits; sorted, duplicates removed")
+	g.def("popSendMessageTopExits", "List (List String)", exitsOf(bodyOf["TOP"]), "the same for the body function of TOP")
+	tails := [][2]string{}
+	if pr.d != nil && pr.d.handlers[bodyState] != nil && pr.send != nil && len(bodyOf) > 0 {
+		for _, fd := range bodyOf {
+			pr.body[fd] = true
+		}
+		w := pr.walker()
+		_, _, rows = smtpTable(w.paths(pr.d.handlerEnv(pp, bodyState), nil, pr.d.handlers[bodyState].Body.List))
+		for _, verb := range []string{"RETR", "TOP"} {
+			set := map[string]bool{}
+			for _, p := range rows[verb] {
+				items := p.items
+				for i, it := range items {
+					if it != "body" {
+						continue
+					}
+					prev := "nothing"
+					for j := i - 1; j >= 0; j-- {
+						if !strings.HasPrefix(items[j], "[") {
+							prev = items[j]
+							break
+						}
+					}
+					set[prev+" ; body"] = true
+				}
+			}
+			var l []string
+			for k := range set {
+				l = append(l, k)
+			}
+			sort.Strings(l)
+			for _, x := range l {
+				tails = append(tails, [2]string{verb, x})
+			}
+		}
+	}
+	g.def("popBodyCalls", "List (String × String)", pairsLean(tails), "for the RETR and TOP rows of the TRANSACTION handler: the event immediately before the body function on every path that reaches it: the +OK status line is sent before the body function runs")
 }
